@@ -1088,9 +1088,11 @@ def parse_primary_expr(lexer, unary_minus=False):
                 identifiers = []
                 for item in result.items:
                     if not isinstance(item, NodeIdentifier):
+                        # the item is named by its kind: rendering it can
+                        # take exponential time or exhaust the host stack
                         raise CklSyntaxError(
-                            f"Destructuring assign expected "
-                            f"identifier but got {item}",
+                            "Destructuring assign expected identifier "
+                            "but got " + type(item).__name__[4:].lower(),
                             token.pos,
                         )
                     identifiers.append(item.value)
